@@ -10,7 +10,7 @@ META = {
                           'GridGlobal::{getQuadratureWeights, computeTensorWeights, getPolynomialSpaceSet, integrate}', 'GridSequence::{getQuadratureWeights, integrate, recomputeSurpluses}', 'GridFourier::{getQuadratureWeights, integrate}',
                           'OneDimensionalMeta::getQExact', 'OneDimensionalNodes::*', 'MultiIndexManipulations::{selectTensors, computeTensorWeights, createPolynomialSpace}'],
     'assumptions': ['oracle: closed-form moments (uniform 2/(k+1); Jacobi family via the Beta function; Laguerre Gamma(k+a+1); Hermite Gamma((k+a+1)/2); binomial expansion for linear transforms; clenshaw-curtis-zero tested on (1-x^2) q(x))',
-                    'tolerance 1e-9 x conditioning (sum |w_i| |x_i^m| + |mu_m|); coefficients in [-1,1]', 'exotic quadrature (Addons) outside the claim: no closed-form oracle', 'custom-tabulated rules outside this check'],
+                    'tolerance 1e-9 x conditioning (sum |w_i| |x_i^m| + |mu_m|); coefficients in [-1,1]', 'exotic quadrature (Addons) outside the claim: no closed-form oracle', 'custom-tabulated rules outside this check', 'gauss-jacobi with alpha != beta: degree <= 13 (precision of the oracle)'],
 }
 
 JAC = {'gauss-gegenbauer': [(0.5, None), (2.0, None)], 'gauss-gegenbauer-odd': [(1.0, None)], 'gauss-jacobi': [(0.5, 1.5), (2.0, 1.0), (0.0, 0.0)], 'gauss-jacobi-odd': [(1.0, 0.5)],
@@ -35,10 +35,11 @@ def configs(tier):
             abl = JAC.get(rule, [(None, None)])
             for (a, b) in abl:
                 fast = rule in ('clenshaw-curtis', 'clenshaw-curtis-zero', 'fejer2', 'gauss-patterson', 'rleja-double2', 'rleja-double4', 'rleja-shifted-double')
-                for d, l in ((1, 4 if fast else 6), (2, 3 if fast else 4), (3, 2)):
+                jac_general = rule.startswith('gauss-jacobi') and a != b    # oracle: alternating binomial sum in long double, keep the degree <= 13
+                for d, l in ((1, 4 if fast else (3 if jac_general else 6)), (2, 3 if fast else (3 if jac_general else 4)), (3, 2)):
                     for tr in (0, 1):
                         add(spec('global', rule, d, 1, l, 'level', transform=tr, alpha=a, beta=b))
-                add(spec('global', rule, 2, 1, 3 if fast else 5, 'qptotal', aniso=1, alpha=a, beta=b))
+                add(spec('global', rule, 2, 1, 3 if (fast or jac_general) else 5, 'qptotal', aniso=1, alpha=a, beta=b))
                 add(spec('global', rule, 2, 1, 2, 'level', limits=1, alpha=a, beta=b))
         for t in DEPTH_TYPES:
             add(spec('global', 'gauss-legendre', 2, 1, 4 if 'tensor' not in t else 2, t, aniso=1)); add(spec('global', 'clenshaw-curtis', 2, 1, 3 if 'tensor' not in t else 2, t, aniso=1))
